@@ -174,7 +174,7 @@ def run(ctx, crate):
                                 example="interface I {} pragma solidity 0.8.17; contract C { function f(uint a) external { require(a > 0, \"zero\"); } }"))
     # the reported lines are the detector's locations converted one by one: a conversion that carries state from one location to the next (a merge over
     # sorted offsets, a cursor into the file) lets a finding in one item decide what is reported for another (C02's obligations on the conversion)
-    obs.append(depend.inherited(ctx, crate, "R19.lines", "analyze_for_* x3", "every location is converted to its line on its own (C02's obligations on the line lookup)", "C02",
-                                lambda o: o.rule == "R02.plumb", example="`a / b * c * d` (two findings starting at the same byte) in an earlier item"))
+    obs.append(depend.inherited(ctx, crate, "R19.lines", "analyze_for_* x3", "every location is converted to its line on its own, by counting the line feeds before it (C02's obligations on the line lookup)", "C02",
+                                lambda o: o.rule in ("R02.plumb", "R02.canon", "R02.range"), example="`a / b * c * d` (two findings starting at the same byte) in an earlier item"))
     ctx.analysed.setdefault("C19", {})[crate.ctype] = {"detectors": n_det}
     return obs
